@@ -108,7 +108,7 @@ Proof.
     cbn [combine relocate_fields]. cbn [extents ordered_from] in Ho. destruct Ho as (H1 & H2 & Ho).
     apply Forall_cons_iff in HF. destruct HF as [[Hs _] HF]. inversion Hc; subst.
     pose proof (ordered_from_le _ _ _ Ho) as Hle.
-    destruct (ntc p).
+    destruct (ntc _ p).
     + rewrite Z.add_0_r.
       pose proof (relocate_objs_spec orig mv p sbid bid (Z.to_nat c) ms m x0 Hs
                     ltac:(intros; apply Hms; lia)
@@ -214,8 +214,8 @@ Section Nt.
     intros R x Hx. unfold insert_into.
     assert (Hm0 : forall y, 0 <= y < dend L v -> mcopy (v_mem v) 0 junk 0 (dend L v) y = v_mem v y).
     { intros y Hy. rewrite mcopy_in by lia. f_equal. lia. }
-    destruct (all_ctriv L && (negb destr || all_dtriv L)); [cbn [fst snd]; apply Hm0; exact Hx|].
-    destruct (all_ctriv L) eqn:Hct.
+    destruct (all_ctriv _ L && (negb destr || all_dtriv L)); [cbn [fst snd]; apply Hm0; exact Hx|].
+    destruct (all_ctriv _ L) eqn:Hct.
     - destruct (destr && negb (all_dtriv L)); [destruct (destruct_range L v 0 _)|]; cbn [fst snd]; apply Hm0; exact Hx.
     - pose proof (relocate_elems_mem mv bid v l offs R (length l) 0 (v_mem v) (mcopy (v_mem v) 0 junk 0 (dend L v))
                     ltac:(lia) ltac:(intros; reflexivity) Hm0) as Hre.
@@ -398,7 +398,7 @@ Section Nt.
   Lemma move_forward_none v from to : all_triv L = false -> vsize L v = from ->
     move_forward L v from to = (v, []).
   Proof.
-    intros Hnt Hsz. unfold move_forward. unfold all_triv in Hnt. rewrite Hnt.
+    intros Hnt Hsz. unfold move_forward. rewrite Hnt.
     rewrite Hsz, Z.sub_diag. reflexivity.
   Qed.
 
